@@ -15,7 +15,8 @@ RULE = ("histories add*/list(sorter) on Sorter and MafSorter through the public 
         "orders, re-iteration and adding after iterating; generic sorter with int/str/tuple/list/float/bool keys "
         "including 0, '', (), [], 0.0, False as keys and as values; items whose key function or codec raises; "
         "MAF records under the three codec configurations (scheme, explicit names, inferred), both sortable orders, "
-        "contigs present/absent. Streams: valid, single-defect (one raising item), boundary (n multiple of cap, n=0, "
+        "contigs present/absent; sequences of 2-4 sorter sessions in ONE interpreter, each with its own order and its own "
+        "contig list (same names ranked differently, names left out -> the add must raise ValueError, no list). Streams: valid, single-defect (one raising item), boundary (n multiple of cap, n=0, "
         "cap=1, cap=n, cap=n+1, all ties), adversarial (falsy keys/values, cap 0). Every case is also run under a "
         "second (capacity, policy, insertion order) and its key sequence compared. Non-trivial: at least one "
         "iteration returning two or more records; distinct by hash of the case")
@@ -166,21 +167,39 @@ def maf_record(case, k, i, scheme):
     return MafRecord.from_line(line, column_names=COLS, validation_stringency=ValidationStringency.Strict)
 
 
+def case_contigs(case):
+    """the contig list of this sorter: None, the default list, or the case's own list"""
+    c = case.get("contigs")
+    if not c:
+        return None
+    return list(CONTIGS) if c is True else list(c)
+
+
+def unlisted(case, k):
+    """key class k names a chromosome that the sorter's contig list does not have: the key function must raise"""
+    cl = case_contigs(case)
+    return bool(cl) and case["keys"][k][2] not in cl
+
+
 def maf_rank_table(case):
-    """rank of each key class under the documented order (C08)"""
+    """rank of each key class under the documented order (C08); 0 for unlisted chromosomes (their add raises)"""
+    cl = case_contigs(case)
+
     def doc_key(t):
         tb, nb, ch, st, en = t
-        c = CONTIGS.index(ch) if case["contigs"] else ch
+        if cl and ch not in cl:
+            return None
+        c = cl.index(ch) if cl else ch
         co = (c, st, en)
         return (tb, nb) + co if case["order"] == "BarcodesAndCoordinate" else co
-    ds = sorted(set(doc_key(t) for t in case["keys"]))
-    return [ds.index(doc_key(t)) for t in case["keys"]]
+    ds = sorted(set(doc_key(t) for t in case["keys"]) - {None})
+    return [(ds.index(doc_key(t)) if doc_key(t) is not None else 0) for t in case["keys"]]
 
 
 def make_maf(case, cap, always, tmp, scheme):
     from maflib.sorter import MafSorter, MafSorterCodec, Sorter
     from maflib.sort_order import SortOrder
-    contigs = list(CONTIGS) if case["contigs"] else None
+    contigs = case_contigs(case)
     if case["codec"] == "scheme" and always and case.get("api", "MafSorter") == "MafSorter":
         s = MafSorter(case["order"], scheme=scheme, max_objects_in_ram=cap, contigs=contigs)
         s._tmp_dir = tmp      # MafSorter has no tmp_dir parameter; only the location of the spill files changes
@@ -263,15 +282,45 @@ def _gen_maf(rng, stream):
             "ops": _ops(items, rng.random() < 0.5, []), "alt": _alt(rng, n)}
 
 
+def _gen_sessions(rng, stream):
+    """2-4 sorter sessions in one process: different orders, and contig lists that rank the same names
+    differently, leave names out, or are absent"""
+    ss = []
+    for _ in range(rng.randint(2, 4)):
+        c = _gen_maf(rng, "valid")
+        r = rng.random()
+        if r < 0.2:
+            c["contigs"] = False
+        else:
+            cl = list(CHROMS)
+            rng.shuffle(cl)
+            if rng.random() < 0.4:
+                cl = cl[:rng.randint(2, 3)]            # some chromosomes are not listed: their records must be refused
+            c["contigs"] = cl
+        ss.append(c)
+    return {"stream": stream, "flavour": "sessions", "sessions": ss}
+
+
 def generate(rng, n):
     out = []
     for _ in range(n):
         stream = rng.choice(["valid", "valid", "boundary", "defect", "adversarial"])
+        if rng.random() < 0.12:
+            out.append(_gen_sessions(rng, stream))
+            continue
         if rng.random() < 0.3:
             out.append(_gen_maf(rng, "valid" if stream in ("defect", "adversarial") else stream))
         else:
             out.append(_gen_generic(rng, stream))
     return out
+
+
+def _maf_session(contigs, order):
+    keys = [["TB-A", "NB-A", ch, p, p] for ch in ("chr2", "chrX", "chr1") for p in (5, 1)]
+    items = [[k, i, 0] for i, k in enumerate([0, 2, 4, 1, 3, 5, 2])]
+    return {"stream": "corpus", "flavour": "maf", "cap": 2, "always": True, "codec": "names", "order": order,
+            "contigs": contigs, "api": "Sorter", "keys": keys, "ops": _ops(items, False, []),
+            "alt": {"cap": 3, "always": False, "seed": 7}}
 
 
 def corpus():
@@ -296,10 +345,25 @@ def corpus():
         {"stream": "corpus", "flavour": "t/int", "cap": 3, "always": True, "off": 0, "ops": _ops([], True, []), "alt": alt},
         {"stream": "corpus", "flavour": "t/int", "cap": 2, "always": False, "off": 0,
          "ops": _ops([[3, 0, 0], [1, 1, 0], [2, 2, 0], [1, 3, 0]], True, []), "alt": alt},
+        # seeded change: contig ranks memoised in a class-level dict shared by every sort order of the process.
+        # Two sorters with contig lists that rank the same names differently; a third whose list lacks a name.
+        {"stream": "corpus", "flavour": "sessions", "sessions": [
+            dict(_maf_session(["chr1", "chr2", "chrX"], "Coordinate"), cap=2),
+            dict(_maf_session(["chr1", "chrX", "chr2"], "Coordinate"), cap=1),
+            dict(_maf_session(["chrX", "chr1"], "BarcodesAndCoordinate"), cap=3)]},
     ]
 
 
 def shrink(case):
+    if case["flavour"] == "sessions":
+        ss = case["sessions"]
+        for i in range(len(ss)):
+            if len(ss) > 1:
+                yield dict(case, sessions=ss[:i] + ss[i + 1:])
+        for i in range(len(ss)):
+            for c in shrink(ss[i]):
+                yield dict(case, sessions=ss[:i] + [c] + ss[i + 1:])
+        return
     ops = case["ops"]
     for i in range(len(ops)):
         if ops[i][0] == "add" or sum(1 for o in ops if o[0] == "iter") > 1:
@@ -311,10 +375,15 @@ def shrink(case):
 # ------------------------------------------------------------ model wire
 def _model_item(case, ranks, o):
     k = ranks[o[1]] if ranks is not None else o[1]
-    return [0, k, o[2], o[3]]
+    bad = o[3]
+    if ranks is not None and unlisted(case, o[1]):
+        bad = 1
+    return [0, k, o[2], bad]
 
 
 def to_model(case):
+    if case["flavour"] == "sessions":
+        return [5] + [to_model(c) for c in case["sessions"]]
     ranks = maf_rank_table(case) if case["flavour"] == "maf" else None
     ops = [(_model_item(case, ranks, o) if o[0] == "add" else [1]) for o in case["ops"]]
     return [0, case["cap"], 1 if case["always"] else 0, ops]
@@ -349,6 +418,8 @@ def _step(case, items, exc):
 
 
 def from_model(case, sx):
+    if case["flavour"] == "sessions":
+        return {"sessions": [from_model(c, r) for c, r in zip(case["sessions"], sx)]}
     steps = []
     for o, r in zip(case["ops"], sx):
         if o[0] == "add":
@@ -422,6 +493,9 @@ def _run_history(case, cap, always, ops, tmp):
 
 
 def run_impl(case):
+    if case["flavour"] == "sessions":
+        # several sorters one after the other in ONE interpreter, each with its own order and contig list
+        return {"sessions": [run_impl(c) for c in case["sessions"]]}
     import random
     os.makedirs(WORK, exist_ok=True)
     tmp = tempfile.mkdtemp(prefix="c07_", dir=WORK)
@@ -439,6 +513,8 @@ def run_impl(case):
 
 
 def comparable(obs):
+    if "sessions" in obs:
+        return {"sessions": [comparable(o) for o in obs["sessions"]]}
     return {"steps": obs["steps"]}
 
 
@@ -448,7 +524,20 @@ def _clean(case):
 
 
 def oracle(case, obs):
+    if case["flavour"] == "sessions":
+        out = []
+        for n, (c, o) in enumerate(zip(case["sessions"], obs["sessions"])):
+            out += ["%s [session %d of %d, contigs %r]" % (v, n, len(case["sessions"]), case_contigs(c)) for v in oracle(c, o)]
+        return out
     out = []
+    if case["flavour"] == "maf":
+        # a chromosome that the sorter's own contig list does not have must be reported (ValueError), not sorted in
+        for n, (o, st) in enumerate(zip(case["ops"], obs["steps"])):
+            if o[0] == "add" and unlisted(case, o[1]) and st["exc"] != [2]:
+                out.append("unlisted-chromosome-accepted at op %d: %r is not in %r, add returned %r" % (
+                    n, case["keys"][o[1]][2], case_contigs(case), st["exc"]))
+        if out:
+            return out
     if not _clean(case):
         # with raising items only: nothing may be lost silently
         for n, (st, d) in enumerate(zip(obs["steps"], obs["_details"])):
@@ -458,7 +547,7 @@ def oracle(case, obs):
     last_keys = None
     for n, (o, st, d) in enumerate(zip(case["ops"], obs["steps"], obs["_details"])):
         if o[0] == "add":
-            if st["exc"] is not None:
+            if st["exc"] is not None and not (case["flavour"] == "maf" and unlisted(case, o[1])):
                 out.append("add-raised at op %d: %r" % (n, st["exc"]))
             last_keys = None
             continue
@@ -506,6 +595,9 @@ def signature(case, violation):
 
 
 def classify(case, obs):
+    if case["flavour"] == "sessions":
+        kinds = sorted(set((c["order"][0] + ("c" if case_contigs(c) else "-")) for c in case["sessions"]))
+        return "%s/sessions=%d/%s" % (case["stream"], len(case["sessions"]), "+".join(kinds))
     n = sum(1 for o in case["ops"] if o[0] == "add")
     fl = case["flavour"] if case["flavour"] != "maf" else "maf/" + case["codec"]
     if obs is None:
@@ -516,4 +608,6 @@ def classify(case, obs):
 
 
 def nontrivial(case, obs):
+    if case["flavour"] == "sessions":
+        return sum(1 for c, o in zip(case["sessions"], obs["sessions"]) if nontrivial(c, o)) >= 2
     return any(len(s.get("items") or []) >= 2 for s in obs["steps"])
